@@ -684,6 +684,7 @@ type joinGen struct {
 	Retain    bool // copy-mode consumers retain and poison; no-copy consumers hold
 	Real      bool
 	Trickle   bool // favour the arrival patterns of C10
+	Stop      int  // v1 join: 0 none, 1 stop/cancel at a random delivered slice, 2 same but always before the release
 }
 
 func genJoinScenario(rng *rand.Rand, g joinGen) JoinScenario {
@@ -925,6 +926,33 @@ func genJoinScenario(rng *rand.Rand, g joinGen) JoinScenario {
 			sc.Hold = append(sc.Hold, h)
 		}
 	}
+	if g.Stop != 0 && sc.Disc == "v1join" {
+		sc.StopKind = []string{"stop", "cancel"}[rng.IntN(2)]
+		sc.StopAfter = rng.IntN(4)
+		sc.StopBeforeRelease = sc.NoCopy && (g.Stop == 2 || rng.IntN(2) == 0)
+		switch rng.IntN(3) {
+		case 1:
+			if T > 0 {
+				sc.StopDelay = rng.Int64N(T + 1)
+			} else {
+				sc.StopDelay = int64(rng.IntN(1000))
+			}
+		case 2:
+			sc.StopDelay = 1
+		}
+		if g.Stop == 2 {
+			// keep the input busy so that the discipline has elements and ticks to react to
+			// between the stop signal and its exit
+			if sc.InCap < int(sc.J) {
+				sc.InCap = int(sc.J)
+			}
+			for i := range sc.Steps {
+				if rng.IntN(3) != 0 {
+					sc.Steps[i].Gap = 0
+				}
+			}
+		}
+	}
 	return sc
 }
 
@@ -937,5 +965,12 @@ func (sc JoinScenario) class() string {
 	if sc.NoCopy {
 		m = "no-copy"
 	}
-	return fmt.Sprintf("%s/%s/%s/%s", sc.Disc, m, t, sc.Consumer)
+	st := ""
+	if sc.StopKind != "" {
+		st = "/" + sc.StopKind
+		if sc.StopBeforeRelease {
+			st += "-before-release"
+		}
+	}
+	return fmt.Sprintf("%s/%s/%s/%s%s", sc.Disc, m, t, sc.Consumer, st)
 }
